@@ -72,6 +72,7 @@ class Ctx:
         self.notes = []
         self.truncated = {}
         self._cur = None  # (section, index)
+        self.context = None  # free-form description of the case in progress (for contract witnesses)
 
     # ---- case iteration -------------------------------------------------
     def quick(self):
